@@ -64,6 +64,26 @@ def run_property(prop, tier, seed, model=None, quiet=False, write=True):
     return viol, results
 
 
+def _add_selftest_to_evidence(prop, stats, wall):
+    import json
+    p = os.path.join(report.VERIF, 'evidence', prop + '.json')
+    try:
+        ev = json.load(open(p))
+    except Exception:
+        return
+    ev['coverage']['selftest'] = stats
+    ev['coverage']['explanation'] += (
+        ' Thorough tier: the checker itself was run on %d scratch variant(s) of the current tree '
+        '(%d firing: one rule instance broken, the named rule must report it; %d neutral: '
+        'behaviour-preserving edit, every rule must stay silent; %d skipped because their '
+        'anchor text is absent).' % (stats.get('variants', 0), stats.get('firing', 0),
+                                     stats.get('neutral', 0), stats.get('skipped', 0)))
+    ev['wall_s'] = round(ev.get('wall_s', 0) + wall, 3)
+    with open(p, 'w') as f:
+        json.dump(ev, f, indent=1, ensure_ascii=False)
+        f.write('\n')
+
+
 def main(argv):
     ap = argparse.ArgumentParser(prog='check')
     ap.add_argument('prop')
@@ -81,13 +101,19 @@ def main(argv):
             with open(a.replay) as f:
                 print(json.dumps(json.load(f), indent=1))
         viol, results = run_property(a.prop, a.tier, seed)
+        if viol:
+            return 1
         if a.tier == 'thorough':
+            # the checker is tested both ways on scratch variants of the current tree
+            # (only meaningful when the tree itself is clean)
             from . import selftest
+            t0 = time.time()
             st = selftest.run(a.prop, seed)
+            _add_selftest_to_evidence(a.prop, selftest.LAST, time.time() - t0)
             if st:
                 print('ANALYSIS-ERROR self-test of the checker failed: ' + '; '.join(st[:5]))
                 return 2
-        return 1 if viol else 0
+        return 0
     except AnalysisError as e:
         print('ANALYSIS-ERROR property=%s %s' % (a.prop, e))
         return 2
